@@ -42,11 +42,12 @@ def recip_def(c, y, n):
 
 def sqrt_def(c, x, n):
     # y*y = x :  n = 0: SQRT(0) = np.sqrt(x0) ;  n>=1: 2 y0 y[n] = x[n] - sum_{k=1}^{n-1} y[k] y[n-k]
-    return [z3.Implies(n >= 1, 2 * SQRT(x, 0) * SQRT(x, n) == x[n] - c.Sum(z3.IntVal(1), n - 1, lambda k: SQRT(x, k) * SQRT(x, n - k))),
+    # (solved for the n-th coefficient, as the kernel computes it; SQRT(x,0) != 0 is in force wherever this is used)
+    return [z3.Implies(n >= 1, SQRT(x, n) == 1 / (2 * SQRT(x, 0)) * (x[n] - c.Sum(z3.IntVal(1), n - 1, lambda k: SQRT(x, k) * SQRT(x, n - k)))),
             SQRT(x, 0) == np('sqrt')(x[0])]
 
 def exp_def(c, x, n):
-    return [z3.Implies(n >= 1, toR(n) * EXP(x, n) == c.Sum(z3.IntVal(1), n, lambda k: toR(k) * x[k] * EXP(x, n - k))),
+    return [z3.Implies(n >= 1, EXP(x, n) == c.Sum(z3.IntVal(1), n, lambda k: toR(k) * x[k] * EXP(x, n - k)) / toR(n)),
             EXP(x, 0) == np('exp')(x[0])]
 
 def log_def(c, x, n):
@@ -56,28 +57,28 @@ def log_def(c, x, n):
 
 def _pair_def(S, C, s0, c0, sign):
     def d(c, x, n):
-        return [z3.Implies(n >= 1, toR(n) * S(x, n) == c.Sum(z3.IntVal(1), n, lambda k: toR(k) * x[k] * C(x, n - k))),
-                z3.Implies(n >= 1, toR(n) * C(x, n) == c.Sum(z3.IntVal(1), n, lambda k: sign * toR(k) * x[k] * S(x, n - k))),
+        return [z3.Implies(n >= 1, S(x, n) == c.Sum(z3.IntVal(1), n, lambda k: toR(k) * x[k] * C(x, n - k)) / toR(n)),
+                z3.Implies(n >= 1, C(x, n) == c.Sum(z3.IntVal(1), n, lambda k: sign * toR(k) * x[k] * S(x, n - k)) / toR(n)),
                 S(x, 0) == np(s0)(x[0]), C(x, 0) == np(c0)(x[0])]
     return d
 sincos_def = _pair_def(SIN, COS, 'sin', 'cos', -1)
 sinhcosh_def = _pair_def(SINH, COSH, 'sinh', 'cosh', 1)
 
 def tansec2_def(c, x, n):
-    return [z3.Implies(n >= 1, toR(n) * TAN(x, n) == c.Sum(z3.IntVal(1), n, lambda k: toR(k) * x[k] * SEC2(x, n - k))),
-            z3.Implies(n >= 1, toR(n) * SEC2(x, n) == 2 * c.Sum(z3.IntVal(1), n, lambda k: toR(k) * TAN(x, k) * TAN(x, n - k))),
+    return [z3.Implies(n >= 1, TAN(x, n) == c.Sum(z3.IntVal(1), n, lambda k: toR(k) * x[k] * SEC2(x, n - k)) / toR(n)),
+            z3.Implies(n >= 1, SEC2(x, n) == 2 * c.Sum(z3.IntVal(1), n, lambda k: toR(k) * TAN(x, k) * TAN(x, n - k)) / toR(n)),
             TAN(x, 0) == np('tan')(x[0]), SEC2(x, 0) == 1 / (np('cos')(x[0]) * np('cos')(x[0]))]
 
 def tanhsech2_def(c, x, n):
-    return [z3.Implies(n >= 1, toR(n) * TANH(x, n) == c.Sum(z3.IntVal(1), n, lambda k: toR(k) * x[k] * SECH2(x, n - k))),
-            z3.Implies(n >= 1, toR(n) * SECH2(x, n) == -2 * c.Sum(z3.IntVal(1), n, lambda k: toR(k) * TANH(x, k) * TANH(x, n - k))),
+    return [z3.Implies(n >= 1, TANH(x, n) == c.Sum(z3.IntVal(1), n, lambda k: toR(k) * x[k] * SECH2(x, n - k)) / toR(n)),
+            z3.Implies(n >= 1, SECH2(x, n) == -2 * c.Sum(z3.IntVal(1), n, lambda k: toR(k) * TANH(x, k) * TANH(x, n - k)) / toR(n)),
             TANH(x, 0) == np('tanh')(x[0]), SECH2(x, 0) == 1 - np('tanh')(x[0]) * np('tanh')(x[0])]
 
 def _arc_def(Y, Z, y0, z0, zrule):
     # z * theta(y) = theta(x) ; theta(z) = zrule
     def d(c, x, n):
-        return [z3.Implies(n >= 1, toR(n) * Z(x, 0) * Y(x, n) == toR(n) * x[n] - c.Sum(z3.IntVal(1), n - 1, lambda k: toR(k) * Y(x, k) * Z(x, n - k))),
-                z3.Implies(n >= 1, toR(n) * Z(x, n) == zrule(c, x, n)),
+        return [z3.Implies(n >= 1, Y(x, n) == (toR(n) * x[n] - c.Sum(z3.IntVal(1), n - 1, lambda k: toR(k) * Y(x, k) * Z(x, n - k))) / (Z(x, 0) * toR(n))),
+                z3.Implies(n >= 1, Z(x, n) == zrule(c, x, n) / toR(n)),
                 Y(x, 0) == y0(x), Z(x, 0) == z0(x)]
     return d
 arcsin_def = _arc_def(ASIN, ASINZ, lambda x: np('arcsin')(x[0]), lambda x: np('cos')(np('arcsin')(x[0])),
@@ -102,5 +103,28 @@ def pown_def(c, x, m, n):
             z3.Implies(m >= 2, POWN(x, m, n) == c.Sum(z3.IntVal(0), n, lambda k: x[k] * POWN(x, m - 1, n - k)))]
 
 def bfwf_def(c, x, fp, f0, n):
-    return [z3.Implies(n >= 1, toR(n) * BFWF(x, fp, f0, n) == c.Sum(z3.IntVal(1), n, lambda k: toR(k) * x[k] * fp[n - k])),
+    return [z3.Implies(n >= 1, BFWF(x, fp, f0, n) == c.Sum(z3.IntVal(1), n, lambda k: toR(k) * x[k] * fp[n - k]) / toR(n)),
             BFWF(x, fp, f0, 0) == f0]
+
+
+def causality_lemma(c, name, Ts, defs, extra_args=(), domain=lambda a: []):
+    """Strong-induction step of the causality (degree-independence) lemma for the spec functions Ts (all defined by `defs`):
+         (forall i <= n. a[i] = b[i])  and  (forall m < n. T(a,m) = T(b,m))   ==>   T(a,n) = T(b,n).
+    By induction on n this gives: coefficient n of the spec depends on input coefficients of order <= n only (property C12),
+    and it makes the spec functions extensional on the coefficients that exist."""
+    a = z3.Const('a!caus_' + name, ARR); b = z3.Const('b!caus_' + name, ARR); n = z3.Int('n!caus'); i = z3.Int('i!caus'); m = z3.Int('m!caus')
+    hyps = [n >= 0, z3.ForAll([i], z3.Implies(z3.And(0 <= i, i <= n), a[i] == b[i]))] + list(domain(a))
+    for T in Ts: hyps.append(z3.ForAll([m], z3.Implies(z3.And(0 <= m, m < n), T(a, *extra_args, m) == T(b, *extra_args, m))))
+    hyps += list(defs(c, a, n)) + list(defs(c, b, n))
+    goal = z3.And([T(a, *extra_args, n) == T(b, *extra_args, n) for T in Ts])
+    return ('causality of %s: coefficient n depends on input coefficients <= n only' % name, hyps, goal, ())
+
+
+def causality_lemma2(c, name, T, defs, recursive=True, domain=lambda a, b: []):
+    """two-array version (CONV, QUOT): T(a,b,n) depends on a[0..n], b[0..n] only"""
+    a = z3.Const('a!c2_' + name, ARR); b = z3.Const('b!c2_' + name, ARR); a2 = z3.Const('a2!c2_' + name, ARR); b2 = z3.Const('b2!c2_' + name, ARR)
+    n = z3.Int('n!caus'); i = z3.Int('i!caus'); m = z3.Int('m!caus')
+    hyps = [n >= 0, z3.ForAll([i], z3.Implies(z3.And(0 <= i, i <= n), z3.And(a[i] == a2[i], b[i] == b2[i])))] + list(domain(a, b))
+    if recursive: hyps.append(z3.ForAll([m], z3.Implies(z3.And(0 <= m, m < n), T(a, b, m) == T(a2, b2, m))))
+    hyps += list(defs(c, a, b, n)) + list(defs(c, a2, b2, n))
+    return ('causality of %s: coefficient n depends on input coefficients <= n only' % name, hyps, T(a, b, n) == T(a2, b2, n), ())
